@@ -35,6 +35,9 @@ checks = {
  "C11": dict(technique="runtime monitoring: generated token lists rendered to text and fed to the real Tokenize; (type, value, row, column) compared with the generating list, reference lexer and go/scanner as witnesses",
    text="Generator-based monitor of the real lexer: every vocabulary token alone, all ordered pairs of ~110 class representatives x 9 separator kinds, negative-literal contexts, comment / multi-line-token position cases, random sequences; the oracle is the generating token list with renderer-counted positions, cross-checked by an independent maximal-munch reference lexer and by go/scanner; error cases for unterminated literals and bytes outside the grammar.",
    note="Trusted: the generating list + reference lexer (cross-checked against go/scanner on Go-compatible text). Float spellings, '-' after '}'/'++'/'--', byte-vs-character columns after non-ASCII text are not asserted.", ref="§3 C11"),
+ "C09": dict(technique="runtime monitoring: generated multi-file programs executed under real bash against a reference interpreter with module semantics, plus a link monitor over the emitted text",
+   text="Module monitor: 13 import-graph shapes (chains, fan-outs with top-level calls, diamonds, repeated aliases, std + local) with deliberately equal names in every file; every imported file is re-rendered until all 16 first hex digits of its content-hash prefix were executed; scripts run under real bash and are compared with the reference interpreter; a text monitor requires every invoked function to be defined earlier and nothing to be defined twice; negative cases for private/unknown/duplicate names.",
+   note="Trusted: RefLang module semantics (each file's top-level code runs once at first import), link monitor regexes. Multiply-reached files carry only pure definitions.", ref="§3 C09"),
  "C08": dict(technique="runtime monitoring: one program per (origin, data path, character, position) cell executed under real bash in a sandbox; stdout/stderr/exit and the complete sandbox file system (canary files) judged against the reference",
    text="Table monitor with canaries: 5 origins x 14 data paths x 97 characters x 4 positions plus 36 hostile payloads and random strings; each cell's program runs under real bash in a fresh sandbox; the oracle is the reference interpreter's bytes, an empty stderr, exit 0 and the predicted sandbox file system - any stray file (e.g. CANARY created by executed data, a redirect target) is a violation.",
    note="Trusted: RefLang interpreter (strings as byte vectors), sandbox snapshot. Bash only. Known finding: literal expansion of \" $ ` \\ (recorded by cell pattern).", ref="§3 C08", cat="exploration"),
